@@ -178,7 +178,10 @@ class LockGen:
             # a writer that holds X for a while, next to a PrepareRead caller that then overwrites / moves the
             # (possibly owning) composite guard: the shared-lock fallback of PrepareRead needs exactly this
             x = self.var(0, 'X')
-            progs[0] = [f'lock X {x} 0'] + [f'paywr 0 {self.nextval()}' for _ in range(self.rng.randrange(1, 4))] + [f'dtor {x}'] + progs[0]
+            # (the hold time straddles the retry budget of the optimistic phase: shorter holds end in the optimistic
+            # phase, longer ones push PrepareRead into its shared-lock fallback, whose CAS then races with the others)
+            hold = self.rng.choice([1, 2, 3, 5, 8, 12, 16, 24])
+            progs[0] = [f'lock X {x} 0'] + [f'paywr 0 {self.nextval()}' for _ in range(hold)] + [f'dtor {x}'] + progs[0]
             a, b = self.var(1, 'Comp'), self.var(1, 'Comp', 1)
             how = self.rng.choice(['massign', 'mctor'])
             progs[1] = [f'prep {a} 0', f'bool {a}', f'prep {b} 1', f'{how} {a} {b}', f'bool {a}', f'bool {b}',
@@ -249,12 +252,53 @@ def staggered_scenario(comp, rng, sid):
     return '\n'.join(lines)
 
 
+def samelock_scenario(comp, rng, sid):
+    """two owning guards of one kind on the SAME lock in one thread (legal for S: the grants are shared), then move
+    assignment / move construction between them, and self move-assignment of an owning guard.  For MCSLock every
+    thread uses S only (a queued X/SIX between a thread's two S requests would be a client-level deadlock); for the
+    word locks writers run alongside."""
+    g = LockGen(comp, rng, nlocks=1)
+    nthreads = rng.choice([1, 2, 2, 3])
+    progs = []
+    for t in range(nthreads):
+        a, b = g.var(t, 'S'), g.var(t, 'S', 1)
+        ops = []
+        for _ in range(rng.randrange(1, 4)):
+            r = rng.random()
+            if r < 0.55:
+                how = rng.choice(['massign', 'massign', 'mctor'])
+                d, s_ = (a, b) if rng.random() < 0.5 else (b, a)
+                ops += [f'lock S {a} 0', f'lock S {b} 0', f'{how} {d} {s_}', f'bool {a}', f'bool {b}', 'payrd 0',
+                        f'dtor {a}', f'dtor {b}']
+            elif r < 0.8:
+                ops += [f'lock S {a} 0', f'massign {a} {a}', f'bool {a}', f'dtor {a}']
+            elif comp != 'mcs':
+                x = g.var(t, 'X')
+                ops += [f'lock X {x} 0', f'paywr 0 {g.nextval()}', f'dtor {x}']
+            else:
+                ops += [f'lock S {a} 0', 'payrd 0', f'dtor {a}']
+        progs.append(ops)
+    pt = nthreads
+    px = g.var(pt, 'X')
+    progs.append([f'lock X {px} 0', f'dtor {px}'])
+    kinds = ','.join(g.block * (nthreads + 1))
+    lines = [f'SCEN {sid} comp={comp} nlocks=1 kinds={kinds} policy={rng.choice([0, 1, 2, 3])} seed={rng.randrange(1, 1 << 30)} '
+             f'max_steps=3000 late={pt}']
+    lines += ['T ' + ';'.join(p) for p in progs]
+    lines.append('GO')
+    return '\n'.join(lines)
+
+
 def make_scenarios(comp, seed, count, prefix):
     rng = random.Random(f'{comp}-{seed}')
     out = []
     for i in range(count):
-        if rng.random() < 0.3:
+        r0 = rng.random()
+        if r0 < 0.3:
             out.append(staggered_scenario(comp, rng, f'{prefix}{i}'))
+            continue
+        if r0 < 0.36:
+            out.append(samelock_scenario(comp, rng, f'{prefix}{i}'))
             continue
         nlocks = 2 if rng.random() < 0.35 else 1
         g = LockGen(comp, rng, nlocks=nlocks)
